@@ -102,8 +102,9 @@ def classify(res, harness_src_prefix="src/h_", must_cover=()):
     return "pass", [], notes
 
 
-def run_harnesses(check_id, harnesses, features=(), jobs=None, timeout_s=900, harness_timeout_s=None, mem_gb=20, tag="main"):
-    """harnesses: list of 'module::name'. Returns dict name -> parsed result (or None)."""
+def run_harnesses(check_id, harnesses, features=(), jobs=None, timeout_s=900, harness_timeout_s=None, mem_gb=20, tag="main", skip_tags=()):
+    """harnesses: list of 'module::name'. Returns dict name -> parsed result (or None).
+    skip_tags: obligations compiled out of the harnesses (VERIF_SKIP_TAGS, see chk! in vsrc.rs)."""
     prepare()
     td = os.path.join(CACHE, "kt-%s-%s%s" % (check_id, tag, CACHE_TAG))
     outdir = os.path.join(td, "result_output_dir")
@@ -117,7 +118,12 @@ def run_harnesses(check_id, harnesses, features=(), jobs=None, timeout_s=900, ha
         cmd += ["--harness-timeout", "%ds" % harness_timeout_s]
     for h in harnesses:
         cmd += ["--harness", h]
-    rc, out, secs = sh(cmd, cwd=KANI_CRATE, timeout=timeout_s, mem_gb=mem_gb)
+    env = dict(ENV)
+    if skip_tags:
+        env["VERIF_SKIP_TAGS"] = ",".join(sorted(skip_tags))
+    else:
+        env.pop("VERIF_SKIP_TAGS", None)
+    rc, out, secs = sh(cmd, cwd=KANI_CRATE, timeout=timeout_s, mem_gb=mem_gb, env=env)
     results = {}
     for h in harnesses:
         p = os.path.join(outdir, h)
@@ -129,14 +135,19 @@ def run_harnesses(check_id, harnesses, features=(), jobs=None, timeout_s=900, ha
     return results, meta
 
 
-def concrete_values(check_id, harness, features=(), timeout_s=1800, mem_gb=30):
+def concrete_values(check_id, harness, features=(), timeout_s=1800, mem_gb=30, skip_tags=()):
     """Re-run one failing harness with concrete playback; return list of scripts (each list of byte lists)."""
     td = os.path.join(CACHE, "kt-%s-%s%s" % (check_id, "playback", CACHE_TAG))
     cmd = ["cargo", "kani", "--target-dir", td, "-Z", "stubbing", "-Z", "concrete-playback",
            "--concrete-playback=print", "--exact", "--harness", harness]
     if features:
         cmd += ["--features", ",".join(features)]
-    rc, out, secs = sh(cmd, cwd=KANI_CRATE, timeout=timeout_s, mem_gb=mem_gb)
+    env = dict(ENV)
+    if skip_tags:
+        env["VERIF_SKIP_TAGS"] = ",".join(sorted(skip_tags))
+    else:
+        env.pop("VERIF_SKIP_TAGS", None)
+    rc, out, secs = sh(cmd, cwd=KANI_CRATE, timeout=timeout_s, mem_gb=mem_gb, env=env)
     scripts = []
     for m in re.finditer(r"let concrete_vals: Vec<Vec<u8>> = vec!\[(.*?)\n\s*\];", out, re.S):
         vals = []
